@@ -51,9 +51,9 @@ type c13Case struct {
 // mockSearch is the controllable Search; its protocol (poll-stop* / info / poll-ponderhit per iteration,
 // then finish or block) is the automaton the real search's traces are validated against.
 type mockSearch struct {
-	specs    []mockSpec
-	n        int
-	softSeen []int64
+	specs     []mockSpec
+	n         int
+	softSeen  []int64
 	depthSeen []int
 }
 
@@ -124,13 +124,13 @@ func (m *mockSearch) ResizeTT(int) {}
 
 // scripted input: one line per Read, released according to protocol-conformance guards
 type c13Env struct {
-	script  c13Script
-	next    int
-	out     []byte
-	short   bool
-	errOut  []byte
-	goSent  int
-	marks   [][2]int // (output length, go commands read so far) at every write
+	script c13Script
+	next   int
+	out    []byte
+	short  bool
+	errOut []byte
+	goSent int
+	marks  [][2]int // (output length, go commands read so far) at every write
 }
 
 func (e *c13Env) bestmoves() int { return strings.Count(string(e.out), "bestmove") }
@@ -203,7 +203,10 @@ func (w c13Writer) Write(p []byte) (int, error) {
 
 type c13Err struct{ e *c13Env }
 
-func (w c13Err) Write(p []byte) (int, error) { w.e.errOut = append(w.e.errOut, p...); return len(p), nil }
+func (w c13Err) Write(p []byte) (int, error) {
+	w.e.errOut = append(w.e.errOut, p...)
+	return len(p), nil
+}
 
 // c13Exec runs one execution of the script under the scheduler.
 func c13Exec(sc c13Script, choices []int, visit func(uint64, int) bool, short, poolAlt, trace bool) (vsched.Outcome, *c13Env, *mockSearch, *vsched.Sched) {
@@ -403,9 +406,9 @@ func c13RealScripts() []c13Script {
 
 func c13Scripts(thorough bool) []c13Script {
 	type goKind struct {
-		pre   []string
-		line  string
-		mocks []mockSpec
+		pre    []string
+		line   string
+		mocks  []mockSpec
 		ponder bool
 	}
 	kinds := []goKind{
@@ -521,17 +524,17 @@ func init() {
 }
 
 type c13Result struct {
-	Script   string   `json:"script"`
-	Execs    int      `json:"execs"`
-	Points   int      `json:"points"`
-	States   int      `json:"states"`
-	Bound    int      `json:"bound"`
-	Capped   bool     `json:"capped"`
+	Script string `json:"script"`
+	Execs  int    `json:"execs"`
+	Points int    `json:"points"`
+	States int    `json:"states"`
+	Bound  int    `json:"bound"`
+	Capped bool   `json:"capped"`
 	// Completed is the highest deviation bound whose exploration finished (-1 none); equals Bound unless capped.
 	Completed int      `json:"completed_bound"`
-	Outcomes []string `json:"outcomes"`
-	Failure  string   `json:"failure,omitempty"`
-	Schedule []int    `json:"schedule,omitempty"`
+	Outcomes  []string `json:"outcomes"`
+	Failure   string   `json:"failure,omitempty"`
+	Schedule  []int    `json:"schedule,omitempty"`
 }
 
 // c13Explore explores one script to the given bound (bound<0 = unbounded with pruning).
